@@ -17,6 +17,10 @@ FAIL = {
     'C11': ('header', 'rows', 'order', 'roundtrip', 'accept', 'byname', 'panic', 'no-result'),
     'C12': ('panic',),
     'C19': ('member', 'panic'),
+    'C15': ('models', 'illformed', 'panic'),
+    'C16': ('models', 'illformed', 'panic'),
+    'C17': ('illformed', 'panic'),
+    'C18': ('output', 'panic'),
     'C14': ('nodes', 'edges', 'readback', 'graph', 'panic'),
     'C13': ('history', 'handle', 'sharing', 'result', 'no-result', 'shape'),
 }
@@ -49,7 +53,9 @@ TEXT_RULE = {
 
 
 def text(parts, exhaustive=True):
+    ops = {'tok': ['tok'], 'parse': ['parse'], 'eval': ['eval'], 'evalc': ['eval'], 'evalfp': ['eval'], 'evalord': ['eval']}
     return dict(suite='text', parts=parts, profile='release', exhaustive=exhaustive,
+                corpus_ops=sorted(set(o for p in parts for o in ops[p])),
                 rule='; '.join('%s: %s' % (p, TEXT_RULE[p]) for p in parts))
 
 
@@ -67,6 +73,22 @@ def cli(parts, exhaustive=False):
                 rule='; '.join('%s: %s' % (p, CLI_RULE[p]) for p in parts))
 
 
+GEN_RULE = {
+    'queens': 'n_queens_gen -n 0..12 (thorough ..40): output parsed with the real rsbdd parser, the &-chain compared as a multiset of constraints with operand multisets against queens_form n; n = 1..4 solved end to end by the real library against brute force over fsem of the model formula; n = 255, 256, 300 (the u16 boundary) by constraint count and largest index',
+    'sudoku': 'sudoku_gen -r 1 on 17 one-cell texts (digits 0/1/2/9, blanks, quote, non-ASCII digit, ASCII and non-ASCII white space), -r 2 on all single-given and a stride of double-given 4x4 puzzles, seeded random texts for r = 1, 2, 3 (short and over-long input, every blank symbol, digits above r^2, quotes, brackets, white space incl. U+00A0): hints and the three exactly-one families as multisets against sudoku_form r (hints_of_text ..)',
+    'clique': 'max_clique_gen on all directed graphs over <=3 vertices x {-u} x {-a}, all undirected graphs over <=4 vertices x {-a}, the same over vertex names that start with the copy prefix (v_a, v_, v__a), seeded random graphs <=7 vertices: constraint multiset, forall list, premise and both counting lists against form_all / form_max over the complement list comp_dir / comp_undir in the iteration order read off the real output; graphs <=4 vertices additionally solved end to end by the real library against brute force over fsem',
+    'graph': 'random_graph_gen on the (V, E) grid V<=6, E<=max+2 x {-u} x {--dot} x 6 runs (thorough 40) and --complete: each real answer (or refusal) judged by the extracted valid_output / feasible; --convert on all edge lists over 3 vertices and random ones x {-u} against read_graph; --colors k=1..3 against the colour graph aug as a set of unordered pairs',
+}
+
+
+def gen(parts):
+    ops = {'queens': ['queens', 'queensbig', 'queensmodels'], 'sudoku': ['sudoku'], 'clique': ['clique', 'cliquemodels'],
+           'graph': ['graphcheck', 'convert', 'colors']}
+    return dict(suite='gen', parts=parts, profile='release', bins='debug', exhaustive=True,
+                corpus_ops=[o for p in parts for o in ops[p]],
+                rule='; '.join('%s: %s' % (p, GEN_RULE[p]) for p in parts))
+
+
 PROPS = {
     'C02': dict(suites=[bdd(['conn', 'quant', 'count', 'fp', 'model', 'retain', 'clean', 'mixed'])]),
     'C01': dict(suites=[text(['tok', 'parse', 'eval'])]),
@@ -82,6 +104,10 @@ PROPS = {
                         bdd(['mixed'], exhaustive=False)]),
     'C14': dict(suites=[dict(suite='dot', parts=[], profile='release', exhaustive=True,
                              rule='dotbdd: BDDGraph DOT text of all 256 functions over two variable triples x filters Any/True/False and of a stride of the 65536 four-variable functions (thorough: all), parsed back: every node id is replaced by the structure it roots through its T/F edges (a missing edge leads to the leaf the filter hides), node set and edge set compared with dot_nodes / dot_edges of the model, plus flags for an id declared twice, two ids rooting the same structure, an undeclared edge end; dotnamed: the same for evaluated random formulas over names needing escaping (quote, non-ASCII); dottree: SymbolicParseTree DOT text of 18 hand-picked formulas (every node kind, repeated sub-terms) and random formulas, read back as terms from labels and ordered edge labels: node set, edge set and the term rooted at the unique parent-less node compared with the parsed tree')]),
+    'C15': dict(suites=[gen(['queens'])]),
+    'C16': dict(suites=[gen(['clique'])]),
+    'C17': dict(suites=[gen(['sudoku'])]),
+    'C18': dict(suites=[gen(['graph'])]),
     'C03': dict(suites=[bdd(['conn'])]),
     'C04': dict(suites=[bdd(['quant'])]),
     'C05': dict(suites=[bdd(['count']), text(['evalc'])]),
@@ -173,3 +199,15 @@ _t('C14', 'Theorems about the export functions as lists of (structure, label, st
           'with filter True/False exactly the nodes and edges of the Any export minus the hidden leaf and the edges into it remain (C14_filter_nodes, C14_filter_edges); every syntax node is determined by its label and its ordered edge labels (C14_tree_node) and the root has no parent. Node identity in the model is the structure; that the real ids (allocation addresses) coincide with structure is C13. '
           'Correspondence: the real DOT text is parsed back (own reader incl. Rust escape_default un-escaping and the label grammar) and node/edge sets and read-back term are compared with the model on all 3-variable functions x 3 filters, a stride of 4-variable ones, random named diagrams and random syntax trees.',
    'Trusted: Coq kernel; extraction + ocamlopt; glue, in particular the DOT reader of the harness (statement syntax of the dot crate, escape_default un-escaping, label grammar of parser_io.rs). The dot crate itself and its escaping are not modelled. Reference names are not distinguished by the model (a reference carries no payload).')
+
+NOTE_GEN = ('Trusted: Coq kernel; extraction + ocamlopt; glue (the harness parses generator output with the real rsbdd parser and canonicalises the &-chain; the driver does the same to the model formula). '
+            'Not modelled: clap, csv parsing, file I/O, the header comments. Hash-set iteration order (max_clique_gen, augment_colors) is a parameter of the theorems; the check reads the order off the real output or compares as sets. '
+            'fsem is the executable reference semantics, proved to agree with Den on fixed-point-free formulas.')
+_t('C15', 'Theorem for EVERY board size n >= 1: the emitted formula (six loop families as maps over seq, right-nested &-chain ending in true) is satisfied by an assignment iff it places exactly one queen per row and per column and no two on a common diagonal (C15, through coordinates and index identities, no bound on n). '
+          'Correspondence: the real generator output, parsed by the real parser, equals queens_form n as a multiset of constraints for n = 0..12; n <= 4 solved end to end; the u16 boundary (255, 256, 300) by shape.', NOTE_GEN)
+_t('C16', 'Theorems: with the complement list the generator builds (comp_dir / comp_undir, proved sound and complete for adjacency in both directions / in either direction), the --all formula is satisfied exactly by the cliques and the default formula exactly by the cliques of maximum cardinality, for every vertex order, provided the copy naming is injective and fresh (C16_all_*, C16_max_undirected); the prefix loop of the repaired generator yields such copies (Prefix.v). '
+          'Correspondence: all small graphs x flags incl. vertex names that start with v_, against form_all / form_max; graphs <= 4 vertices solved end to end.', NOTE_GEN)
+_t('C17', 'Theorem for every root r and hint list with cells below r^4 and digits in 1..r^2: the emitted formula is satisfied iff the assignment encodes a grid that keeps the hints and has every number once per row, column and box (C17; boxes through a ring identity and one div/mod). The hint reader (white space stripped, position below r^4, ASCII digit) is hints_of_text. '
+          'Digits 0 or above r^2 only force an auxiliary variable (outside the theorem\'s hypothesis, compared by correspondence). Correspondence: hints and constraint families as multisets for r = 1, 2, 3 on exhaustive small and random texts; the output must be a formula (D9).', NOTE_GEN)
+_t('C18', 'Theorems: for EVERY permutation the shuffle may return, a feasible request yields exactly E distinct candidate edges between distinct vertices below V (no pair in both orientations under -u) and an infeasible one is refused (C18_gen); the executable valid_output accepts exactly such answers (valid_output_sound, gen_graph_valid); --convert is the identity / merges reversed duplicates (C18_convert, C18_convert_u); a clique of the colour graph covering every vertex exists iff the input is k-colourable (C18_colours). '
+          'The randomness itself cannot be exhibited by a model: every real answer is judged by the extracted valid_output. Correspondence: (V,E) grid x flags x repeated runs; convert and colours on all small edge lists.', NOTE_GEN)
